@@ -1428,8 +1428,13 @@ def op_chargeops(P):
     """add_charge / drop_charge / change_charge: dense data unchanged, charge rule must hold with the new charges."""
     rng = P.rng
     a = P.pick_slot(lambda s: s.ndim >= 1 and all(l.pipe is None for l in s.legs) and 0 not in s.shape)
-    kind = str(rng.choice(['drop_charge', 'change_charge', 'add_charge']))
+    kind = str(rng.choice(['drop_charge', 'change_charge', 'add_charge', 'apply_charge_mapping']))
     nq = len(P.mod)
+    if kind == 'apply_charge_mapping' and rng.random() < 0.6:
+        try:
+            a = P.pick_slot(lambda s: s.ndim >= 1 and any(l.pipe is not None for l in s.legs) and 0 not in s.shape)  # pipes are mapped recursively
+        except Skip:
+            pass
     P.log.append([kind, {'a': P.slots.index(a)}])
     from .tprog import Prog
     if kind == 'drop_charge':
@@ -1448,6 +1453,28 @@ def op_chargeops(P):
         newm = int(rng.choice(cands))
         r = a.arr.change_charge(which, newm, 'new')
         keep = None
+    elif kind == 'apply_charge_mapping':
+        if nq == 0:
+            raise Skip()
+        # a group homomorphism of the charges: q -> k * q (mod), with an individual integer k for every charge
+        ks = np.array([int(rng.choice([-1, 2, 3, -2, 1, 0])) for _ in range(nq)], dtype=np.int64)
+        chinfo_ = a.arr.chinfo
+
+        def map_func(charges, factors):
+            return chinfo_.make_valid(np.asarray(charges) * factors)
+
+        r = a.arr.apply_charge_mapping(map_func, func_args=(ks, ))
+        keep = None
+        qt_exp = gen.mod_valid(np.asarray(a.qtotal) * ks, P.mod)
+        if not np.array_equal(gen.mod_valid(np.asarray(r.qtotal), P.mod), qt_exp):
+            P.violation(kind + ':qtotal', 'qtotal %r expected %r' % (np.asarray(r.qtotal).tolist(), qt_exp.tolist()))
+        for ax, l in enumerate(r.legs):
+            exp = gen.mod_valid(a.legs[ax].qflat * ks, P.mod)
+            got_q = np.asarray(l.to_qflat()).reshape(l.ind_len, nq)
+            if l.qconj != a.arr.legs[ax].qconj or not np.array_equal(gen.mod_valid(got_q, P.mod), exp):
+                P.violation(kind + ':leg-charges', 'leg %d is not the image of the old charges' % ax)
+        if r is a.arr:
+            P.violation(kind + ':returns-self', 'inplace=False returned the array itself')
     else:
         # add a second copy of charge structure: legs given as LegCharges of a new ChargeInfo
         from tenpy.linalg.charges import ChargeInfo, LegCharge
